@@ -174,6 +174,7 @@ func init() {
 			ruleDecoderBounds(c, r, "")
 			ruleRingModulus(c, r, "", "enc")
 			ruleDeepCopy(c, r, "")
+			ruleOpSiblings(c, r, "")
 			ruleXZWriter(c, r, "")
 			t := getChunkTables(c, r, "")
 			ruleWriter2(c, r, t, "")
